@@ -40,10 +40,87 @@ def _step_shape(r, is_sum, is_byte):
     return False
 
 
+def round_by_paths(f):
+    """one trip around the innermost loop that contains the `^ POLY`: for the loop-carried value v the trips are
+    exactly  v even -> v >> 1  and  v odd -> (v >> 1) ^ POLY  (parity of the value *before* the shift).
+    returns None when there is no single xor with the polynomial, else dict(ok, acc, loop, desc, xor_block)"""
+    import pathsym
+    xs = [(bi, si) for bi, si, st in _stmts(f) if st["rv"]["k"] == "binop" and st["rv"]["op"] == "BitXor" and POLY in (const_int(st["rv"]["a"]), const_int(st["rv"]["b"]))]
+    if len(xs) != 1:
+        return None
+    xb = xs[0][0]
+    loops = natural_loops(f)
+    inner = None
+    for h, body in loops.items():
+        if xb in body and (inner is None or len(body) < len(loops[inner])):
+            inner = h
+    if inner is None:
+        return dict(ok=False, desc="the xor with the polynomial is not inside a loop", xor_block=xb, acc=None, loop=None)
+    paths = pathsym.back_paths(f, inner, loops[inner])
+    if not paths:
+        return dict(ok=None, desc="too many paths through the round loop", xor_block=xb, acc=None, loop=inner)
+    walks = [pathsym.Walk(f).run(p, inner) for p in paths]
+
+    def is_half(e, n):
+        e = pathsym.strip_cast(e)
+        return e[0] in ("Div", "Shr") and pathsym.strip_cast(e[1]) == ("in", n) and e[2] == ("c", 2 if e[0] == "Div" else 1)
+
+    def kind(e, n):
+        e = pathsym.strip_cast(e)
+        if is_half(e, n):
+            return "half"
+        if e[0] == "BitXor":
+            for a, b in ((e[1], e[2]), (e[2], e[1])):
+                if b == ("c", POLY) and is_half(a, n):
+                    return "halfxor"
+        return None
+
+    def parity(conds, n):
+        A = ("in", n)
+        out = None
+        for d, taken, consts in conds:
+            d = pathsym.strip_cast(d)
+
+            def low(x):
+                x = pathsym.strip_cast(x)
+                if x[0] == "Rem" and pathsym.strip_cast(x[1]) == A and x[2] == ("c", 2):
+                    return True
+                if x[0] == "BitAnd" and ((pathsym.strip_cast(x[1]) == A and x[2] == ("c", 1)) or (pathsym.strip_cast(x[2]) == A and x[1] == ("c", 1))):
+                    return True
+                return False
+            if d[0] in ("Eq", "Ne") and low(d[1]) and d[2][0] == "c" and d[2][1] in (0, 1):
+                truth = taken != 0
+                is_zero = truth if d[0] == "Eq" else not truth
+                if d[2][1] == 1:
+                    is_zero = not is_zero
+                out = "even" if is_zero else "odd"
+            elif low(d):
+                out = "even" if taken == 0 else "odd"
+        return out
+    assigned = set()
+    for w in walks:
+        assigned |= set(w.env)
+    best = None
+    for n in sorted(assigned):
+        ks = [(kind(w.env.get(n, ("in", n)), n), parity(w.conds, n)) for w in walks]
+        if any(k == "halfxor" for k, _ in ks):
+            ok = all((k == "half" and p == "even") or (k == "halfxor" and p == "odd") for k, p in ks) and any(k == "half" for k, _ in ks)
+            desc = "loop-carried value _%d: trips %s" % (n, sorted(set("%s when %s" % (k, p) for k, p in ks)))
+            if best is None or ok:
+                best = dict(ok=ok, acc=n, loop=inner, desc=desc, xor_block=xb)
+    if best is None:
+        return dict(ok=None, desc="no loop-carried value of the round loop ends as (v >> 1) ^ POLY of its own previous value", xor_block=xb, acc=None, loop=inner)
+    return best
+
+
 def crc32c_shape(ctx, prog, rule="R5", new_path="crc32::Crc32::new", calc_path="crc32::Crc32::calculate"):
     f = prog.fn(new_path)
     ctx.fn_seen(f)
     R = Resolver(f)
+    # the round as a per-trip transfer function (independent of in-place / fold / functional spelling)
+    rp = round_by_paths(f)
+    if rp is not None and rp["ok"]:
+        return _crc32c_shape_by_paths(ctx, prog, rule, f, R, rp, calc_path)
     # 1. the polynomial constant: exactly one `v = v ^ POLY`
     xors = []
     for bi, si, st in _stmts(f):
@@ -181,6 +258,10 @@ def crc32c_shape(ctx, prog, rule="R5", new_path="crc32::Crc32::new", calc_path="
                     store_ok = any(s2[0] == "field" and s2[2] == "0" and s2[1] == item for s2 in starts) and (src["local"] == v or val == strip_casts(R.local(v)))
     ctx.ob(rule, "table-store/Crc32::new", store_ok, "table[i] receives the value that was initialised with i")
 
+    _calculate_shape(ctx, prog, rule, calc_path)
+
+
+def _calculate_shape(ctx, prog, rule, calc_path):
     # calculate
     c = prog.fn(calc_path)
     ctx.fn_seen(c)
@@ -241,3 +322,67 @@ def crc32c_shape(ctx, prog, rule="R5", new_path="crc32::Crc32::new", calc_path="
                         ops = {tree_str(strip_casts(i1[2])), tree_str(strip_casts(i1[3]))}
                         ok_step = "arg2" in ops and "arg3" in ops
     ctx.ob(rule, "step/Crc32::calculate", ok_step, "step tree %s (expected table[(sum ^ byte) as u8] ^ (sum >> 8))" % sdesc)
+
+
+def _crc32c_shape_by_paths(ctx, prog, rule, f, R, rp, calc_path):
+    n, inner = rp["acc"], rp["loop"]
+    where = f.file_line(rp["xor_block"])
+    ctx.ob(rule, "poly/Crc32::new", True, "exactly one xor with 0x82F63B78 (reflected Castagnoli); " + rp["desc"], where=where)
+    ctx.ob(rule, "reflected-step-guard/Crc32::new", True, "the xor is applied exactly on the trips whose incoming value is odd", where=where)
+    ctx.ob(rule, "halving/Crc32::new", True, "every trip shifts the incoming value right by one bit, the parity tested is the one before the shift", where=where)
+    # rounds and entries
+    ranges = []
+    for bi, si, st in _stmts(f):
+        rv = st["rv"]
+        if rv["k"] == "aggregate" and rv["kind"].get("agg") == "adt" and rv["kind"]["adt"].endswith("ops::Range"):
+            ranges.append(tuple(const_int(o) for o in rv["ops"]))
+        if rv["k"] == "aggregate" and rv["kind"].get("agg") == "adt" and rv["kind"]["adt"].endswith("RangeInclusive"):
+            ranges.append(("incl",) + tuple(const_int(o) for o in rv["ops"][:2]))
+    loops = natural_loops(f)
+    body = loops[inner]
+    # the round loop iterates a range of 8
+    rounds8 = False
+    for bi, t in f.calls(lambda c, t: c.endswith("::next")):
+        if bi in body and t["args"]:
+            for x in leaves(R.operand(t["args"][0])):
+                if x[0] == "agg" and x[1][0] == "adt" and x[1][2] in ("Range", "RangeInclusive") and len(x[2]) >= 2:
+                    lo, hi = const_val(x[2][0]), const_val(x[2][1])
+                    if lo is not None and hi is not None and (hi - lo + (1 if x[1][2] == "RangeInclusive" else 0)) == 8:
+                        rounds8 = True
+    rep = [st["rv"]["n"] for _, _, st in _stmts(f) if st["rv"]["k"] == "repeat"]
+    entries = (0, 256) in ranges or ("incl", 0, 255) in ranges or any(
+        any(x[0] == "repeat" and str(x[2]).strip().startswith("256") for x in leaves(R.operand(t["args"][0]))) for bi, t in f.calls(lambda c, t: c.endswith("::iter_mut") or c.endswith("::iter")) if t["args"])
+    ctx.ob(rule, "rounds-and-entries/Crc32::new", rounds8 and entries and any(str(r).strip().startswith("256") for r in rep),
+           "round loop over a range of 8: %s; entries enumerated 0..256: %s; table repeat lengths %s" % (rounds8, entries, rep))
+    # table[i] = value that entered the round loop as i
+    store_ok = False
+    inits = [strip_casts(R.rvalue(p)) if kind == "stmt" else None for kind, p, bi, si, pl in f.defs().get(n, []) if bi not in body and not pl["proj"]]
+    for m, ds in f.defs().items():
+        for kind, payload, bi, si, place in ds:
+            if kind != "stmt" or not place["proj"] or payload["k"] != "use":
+                continue
+            last = place["proj"][-1]
+            idx_t = None
+            if last["k"] == "index":
+                idx_t = strip_casts(R.local(last["local"]))
+            elif last["k"] == "deref" and len(place["proj"]) == 1:
+                tgt = R.local(place["local"])
+                tgt = tgt[1] if tgt[0] == "partial" else tgt
+                if tgt[0] == "field" and tgt[2] == "1" and tgt[1][0] == "ok":
+                    idx_t = ("field", tgt[1], "0")          # for (i, entry) in table.iter_mut().enumerate()
+            if idx_t is None:
+                continue
+            src = op_place(payload["op"])
+            root = src["local"] if src is not None and not src["proj"] else None
+            for _ in range(4):
+                if root is None or root == n:
+                    break
+                d2 = f.whole_defs(root)
+                if len(d2) == 1 and d2[0][0] == "stmt" and d2[0][1]["k"] == "use" and op_place(d2[0][1]["op"]) is not None and not op_place(d2[0][1]["op"])["proj"]:
+                    root = op_place(d2[0][1]["op"])["local"]
+                else:
+                    break
+            if root == n and inits and all(i is not None and strip_casts(i) == idx_t for i in inits):
+                store_ok = True
+    ctx.ob(rule, "table-store/Crc32::new", store_ok, "table[i] receives the value that entered the round loop as i")
+    _calculate_shape(ctx, prog, rule, calc_path)
